@@ -121,7 +121,9 @@ class Panoptica_Aggregator:
         if continue_file:
             with inevalfilelock:
                 with filelock:
-                    id_list = _load_first_column_entries(self.__output_file)
+                    id_list = _load_first_column_entries(
+                        self.__output_file, skip_header=True
+                    )
                     _write_content(self.__output_buffer_file, [[s] for s in id_list])
 
         atexit.register(self.__exist_handler)
@@ -237,7 +239,7 @@ def _read_first_row(file: str | Path):
     return row
 
 
-def _load_first_column_entries(file: str | Path):
+def _load_first_column_entries(file: str | Path, skip_header: bool = False):
     """Loads the entries from the first column of a TSV file.
 
     NOT THREAD SAFE BY ITSELF!
@@ -261,6 +263,9 @@ def _load_first_column_entries(file: str | Path):
             id_list = []
         else:
             id_list = list([row[0] for row in rows])
+    if skip_header:
+        # first row is the header, not a subject
+        id_list = id_list[1:]
 
     n_id = len(id_list)
     assert n_id == len(list(set(id_list))), "file has duplicate entries!"
